@@ -14,7 +14,8 @@
    `incompletes` (utils/wlru keyed by event id, only Add of absent keys / Peek / Remove /
    RemoveOldest / Keys / Len / Weight are used) is a list of entries, OLDEST FIRST: Add appends,
    Peek does not touch recency, Keys() lists oldest to newest.  The wlru is built with bounds
-   MaxInt32/MaxInt32; the model assumes they are never reached (see design-notes/C14.md).
+   the widest bounds (fixes/C14b.patch; originally MaxInt32/MaxInt32, finding C14-wlru-bounds); the
+   model assumes they are never reached.
 
    A pushed copy (`*event` in Go, with its mutable `released`/`err` fields shared through the
    snapshot slice) is an [entry] with a copy id [cid]; the mutable fields live in the state
